@@ -287,6 +287,7 @@ def called_outside(method, own_file):
     return [rel for rel, code in sorted(_sources.items()) if rel != own_file and rx.search(code)]
 
 
+_cited = {}
 DISPOSITIONS = ("discharged_by", "guarded", "outside_model", "observed_only")
 _last = {}
 
@@ -385,6 +386,36 @@ def generate():
     m.append(";\n".join(rows))
     m.append("].")
     common.write_if_changed(os.path.join(common.COQ, "gen", "PanicMap.v"), "\n".join(m) + "\n")
+    # every citation of a valid entry, resolved by Coq itself: `Check Props.Cnn.<name>.`  The file
+    # depends on the props files (C01's own included), so it cannot be imported by props/C01.v; it is
+    # compiled by lib/props/C01.py after the proof obligations (cites_check()).  A renamed or deleted
+    # theorem makes it fail to compile whatever the regular expressions of validate() think.
+    cited = {}
+    for s in sites:
+        if s["id"] in valid and valid[s["id"]][0] == "discharged_by":
+            for thm in re.split(r"[,\s]+", (valid[s["id"]][1] or "").strip()):
+                mm = re.match(r"(C\d\d)_", thm)
+                if mm:
+                    cited.setdefault(mm.group(1), set()).add(thm)
+    for old in glob.glob(os.path.join(common.COQ, "gen", "PanicCites*.v")):
+        if os.path.basename(old)[len("PanicCites"):-2] not in cited:
+            for ext in ("v", "vo", "vok", "vos", "glob"):
+                try:
+                    os.remove(old[:-1] + ext)
+                except OSError:
+                    pass
+    for prop in sorted(cited):
+        nsites = sum(1 for s in sites if s["id"] in valid and valid[s["id"]][0] == "discharged_by"
+                     and re.search(r"\b%s_" % prop, valid[s["id"]][1] or ""))
+        c = ["(* GENERATED by lib/panicsites.py: one `Check` per theorem of %s that a valid entry of" % prop,
+             "   coq/PANIC_MAP.json cites (%d theorems, cited by %d sites). Compiled by ./check C01 after" % (len(cited[prop]), nsites),
+             "   props/C01.vo; a name that no longer resolves breaks this file. Do not edit. *)",
+             "Require Props.%s." % prop]
+        for thm in sorted(cited[prop]):
+            c.append("Check Props.%s.%s." % (prop, thm))
+        common.write_if_changed(os.path.join(common.COQ, "gen", "PanicCites%s.v" % prop), "\n".join(c) + "\n")
+    _cited.clear()
+    _cited.update({k: sorted(v) for k, v in cited.items()})
     by = {}
     for s in sites:
         d = valid.get(s["id"], ("UNMAPPED",))[0]
@@ -407,6 +438,28 @@ def _count(sites, field):
 
 def summary():
     return dict(_last)
+
+
+def cites_check(timeout=300):
+    """Compile coq/gen/PanicCites<Cnn>.v (written by generate()), one file per cited property.
+    -> (unresolved [(property, tail of coqc output)], unchecked [(property, tail)], theorems checked).
+    `unresolved`: the error is in the generated file itself (a cited name is gone); `unchecked`: a file of
+    the cited property does not build at the moment (that property's own check reports it; the Python
+    validation of validate() still holds for these citations)."""
+    unresolved, unchecked, n = [], [], 0
+    for prop in sorted(_cited):
+        rc, out = common.coq_make(["gen/PanicCites%s.vo" % prop], timeout=timeout)
+        if rc == 0:
+            n += len(_cited[prop])
+        elif re.search(r'File "\./gen/PanicCites%s\.v"' % prop, out):
+            unresolved.append((prop, out[-1200:]))
+        else:
+            unchecked.append((prop, out[-600:]))
+    _last["citations_checked_by_coq"] = n
+    _last["citations_by_property"] = {k: len(v) for k, v in _cited.items()}
+    _last["citations_unresolved"] = [p for p, _ in unresolved]
+    _last["citations_not_checked_dependency_broken"] = [p for p, _ in unchecked]
+    return unresolved, unchecked, n
 
 
 def unmapped_summary():
